@@ -36,7 +36,13 @@ TAdd == /\ IsEvent("add") /\ Add(Ev.v, Ev.acc)
            (~Consistent(m, Ev.acc)) =>
               Report("add", m, IF Consistent(MustAddC(Ev.v, TRUE), Ev.acc) THEN "Dev_CapacityIsSpan" ELSE "")
         /\ (~Q => Report("queries", "", ""))
+(* a declaration is accepted exactly when it is legal (bounds of the right kind and order); the state is untouched *)
+TDecl == /\ IsEvent("decl") /\ UNCHANGED <<k, c>>
+         /\ LET r == [kind |-> Ev.kind, lo |-> Ev.lo, hi |-> Ev.hi, unb |-> Ev.unb, uniq |-> Ev.uniq, opt |-> Ev.opt] IN
+            (Ev.acc # LegalCfg(r)) =>
+               PrintT("@@CASE " \o ToJson([line |-> l, clause |-> "declaration", must |-> IF LegalCfg(r) THEN "accept" ELSE "reject",
+                                           acc |-> Ev.acc, dev |-> "", cfg |-> r, ev |-> Ev]))
 TInit == Init /\ l = 1
-TNext == TNew \/ TSet \/ TGet \/ TAdd
+TNext == TNew \/ TSet \/ TGet \/ TAdd \/ TDecl
 TraceAccepted == TLCGet("stats").diameter - 1 = Len(TraceLog)
 ====
